@@ -43,7 +43,52 @@ type raceJob struct {
 
 // runC20 runs read operations on shared values and write operations on private values from many
 // goroutines at once (meant to be built with -race) and compares every call with its sequential result.
+// coldStart runs first uses of the library from several goroutines at once, before anything in this
+// process has called it sequentially: lazily initialised package state (a cache, a compiled pattern, a
+// registry filled on first use) is written here or never.
+func coldStart() (mismatch int) {
+	type res struct{ f64, i64, u64 string }
+	texts := []string{"12", "-7", "3.5", "250", "+9", "0.25", "1e2", "65535"}
+	one := func(t string) res {
+		var f float64
+		var i int64
+		var u uint64
+		inspector.Assign(&f, t)
+		inspector.Assign(&i, []byte(t))
+		inspector.Assign(&u, &t)
+		var d string
+		inspector.AssignBuf(&d, 42, &inspector.ByteBuffer{})
+		var eq bool
+		_ = inspector.StaticInspector{}.Compare(&f, inspector.OpEq, t, &eq)
+		_, _ = inspector.GetInspector("static")
+		return res{strconv.FormatFloat(f, 'g', -1, 64), strconv.FormatInt(i, 10), strconv.FormatUint(u, 10) + d + b01(eq)}
+	}
+	const n = 8
+	got := make([][]res, n)
+	var wg sync.WaitGroup
+	for g := 0; g < n; g++ {
+		wg.Add(1)
+		g := g
+		go func() {
+			defer wg.Done()
+			for k := range texts {
+				got[g] = append(got[g], one(texts[(k+g)%len(texts)]))
+			}
+		}()
+	}
+	wg.Wait()
+	for g := 0; g < n; g++ {
+		for k := range texts {
+			if got[g][k] != one(texts[(k+g)%len(texts)]) {
+				mismatch++
+			}
+		}
+	}
+	return
+}
+
 func runC20(p *Plan) {
+	cold := coldStart()
 	r := NewRng(p.Seed)
 	goroutines := scale(p.Tier, 8, 16)
 	rounds := scale(p.Tier, 3, 10)
@@ -233,8 +278,11 @@ func runC20(p *Plan) {
 		}()
 	}
 	wg.Wait()
-	total := 0
+	total := cold
 	first := "-"
+	if cold > 0 {
+		first = "cold-start"
+	}
 	for k, c := range mism {
 		total += c
 		if first == "-" || k < first {
